@@ -59,12 +59,17 @@ func genXLSX(r *hx.Rng) *pkg {
 	}
 	nums := perm(r, n+2) // file numbers unrelated to the declared position
 	ids := perm(r, n+6)
+	// sheetId is an identifier given at creation time, not a position: after tabs are
+	// dragged, sheets deleted or inserted, the values are neither ascending nor dense.
+	sids := perm(r, n+4)
+	sidBase := hx.Pick(r, []int{1, 1, 1, 2, 7, 100, 65530})
 	const tSheet = nsRel + "/worksheet"
 	var rels [][3]string
 	usedNames := map[string]bool{}
 	for k := 0; k < n; k++ {
 		d := part{Tok: token(r, k), ID: fmt.Sprintf("rId%d", ids[k]+1)}
 		d.Title = fmt.Sprintf("%s %d", hx.Pick(r, sheetWords), k*7%10)
+		d.SheetID = sidBase + sids[k]
 		if r.Chance(1, 8) {
 			d.ID = fmt.Sprintf("R%x", ids[k]+10)
 		}
@@ -169,8 +174,8 @@ func genXLSX(r *hx.Rng) *pkg {
 	var wb strings.Builder
 	wb.WriteString(xmlHdr + `<workbook xmlns="` + nsSS + `" xmlns:r="` + nsRel + `"><bookViews><workbookView/></bookViews><sheets>`)
 	var decl [][2]string
-	for k, d := range p.Declared {
-		fmt.Fprintf(&wb, `<sheet name="%s" sheetId="%d" r:id="%s"/>`, writers.XMLEsc(d.Title), 10+k, writers.XMLEsc(d.ID))
+	for _, d := range p.Declared {
+		fmt.Fprintf(&wb, `<sheet name="%s" sheetId="%d" r:id="%s"/>`, writers.XMLEsc(d.Title), d.SheetID, writers.XMLEsc(d.ID))
 		decl = append(decl, [2]string{d.Title, d.ID})
 	}
 	wb.WriteString(`</sheets></workbook>`)
